@@ -33,7 +33,9 @@ SumSeq(s) == IF s = <<>> THEN 0 ELSE Head(s) + SumSeq(Tail(s))
 \*   path    a = fill (0 none, 1 red, 2 red alpha 1/2, 3 linear gradient, 4 radial gradient, 5 linear gradient with three stops)
 \*           b = stroke (0 none, 1 blue, 2 blue alpha 1/2)   c = fill rule (0 NonZero, 1 EvenOdd)   d = closed
 \*   image   a = image (1 opaque, 2 and 3 with alpha => SMask)   b = encoding (0 lossless, 1 lossy/DCT)
-\*   text    a = font (1 TrueType "A", 2 CFF "B", 3 standard Type1 "Helvetica")  b = string (1, 2 plain; 3..8 with ( ) \ )  c = vertical
+\*           c = 1: drawn under a singular matrix (x scale 0: the transformed image has no width)
+\*   text    a = font (1 TrueType "A", 2 CFF "B", 3 standard Type1 "Helvetica")  b = string (1, 2 plain; 3..8 with ( ) \ ; 9: exactly 296 distinct glyphs, so that the last
+\*           two-byte code is 0x0128 whose low byte is "(" )  c = vertical
 \*   link    a = uri class       newpage / skip: no arguments
 Call(k, a, b, c, d) == [k |-> k, a |-> a, b |-> b, c |-> c, d |-> d]
 Skip == Call("skip", 0, 0, 0, 0)
@@ -58,7 +60,7 @@ SmallCalls ==
 FullCalls ==
   LET paths == {Call("path", f, s, r, c) : f \in 0..4, s \in 0..2, r \in 0..1, c \in 0..1}
   IN {p \in paths : p.a # 0 \/ p.b # 0}
-     \cup {Call("image", i, e, 0, 0) : i \in 1..3, e \in 0..1}
+     \cup {Call("image", i, e, sg, 0) : i \in 1..3, e \in 0..1, sg \in 0..1}
      \cup {Call("text", f, s, 0, 0) : f \in 1..2, s \in 1..2} \cup {Call("text", f, 2, 1, 0) : f \in 1..2}
      \cup {Call("text", 3, s, 0, 0) : s \in 1..8}      \* standard font: also the strings with parentheses and backslash
      \cup {Call("link", u, 0, 0, 0) : u \in 1..2}
@@ -223,6 +225,11 @@ Init ==
                             \* "1) item :-("  "[0, 1)" - unbalanced / balanced parentheses and a backslash inside a shown string
                             /\ prog \in {<<a, Call("text", 3, t, 0, 0), b>> : a \in {Call("path", 1, 0, 0, 1), Call("text", 1, 1, 0, 0), Call("text", 3, 1, 0, 0)},
                                                                              t \in 3..8, b \in {Skip, Call("text", 3, 2, 0, 0), NewPageC}}
+                                  \* images drawn under a singular matrix (q/Q must stay balanced)
+                                  \cup {<<a, Call("image", i, e, 1, 0), b>> : a \in {Call("path", 1, 0, 0, 1), Call("image", 2, 0, 0, 0)}, i \in 1..2, e \in 0..1,
+                                                                            b \in {Skip, Call("text", 1, 1, 0, 0), NewPageC}}
+                                  \* a text with exactly 296 distinct glyphs of the embedded TrueType font
+                                  \cup {<<Call("text", 1, 9, 0, 0), b, Skip>> : b \in {Skip, Call("text", 1, 1, 0, 0), NewPageC}}
                             /\ opts \in {OneTrue(TRUE), OneTrue(FALSE)} /\ info = Mixed /\ infoAt = 0
        [] Gen = "info" ->   /\ prog = [i \in 1..L |-> IF i = 1 THEN Call("path", 1, 0, 0, 1) ELSE Skip]
                             /\ opts \in (IF NRand = 0 THEN {OneTrue(TRUE)} ELSE {OneTrue(TRUE), OneTrue(FALSE)})
